@@ -9,24 +9,13 @@ use netflow_parser::static_versions::{v5, v7};
 use netflow_parser::variable_versions::{ipfix, v9};
 use netflow_parser::{NetflowPacket, NetflowParseError, NetflowParser, ParsedNetflow, PartialParse};
 
-fn partial(version: u16) -> NetflowParseError {
+pub fn partial(version: u16) -> NetflowParseError {
     // PartialParse.remaining / .error are not observed by any W harness
     NetflowParseError::Partial(PartialParse { version, remaining: Vec::new(), error: String::new() })
 }
 
-/// remaining = packet[k..] without a symbolic-size allocation request: capacity is the
-/// constant MAXREM, length is whatever is left.
-const MAXREM: usize = 64;
-fn rest(packet: &[u8], k: usize) -> Vec<u8> {
-    let mut v = Vec::with_capacity(MAXREM);
-    let mut i = 0;
-    while i < MAXREM {
-        if k + i < packet.len() {
-            v.push(packet[k + i]);
-        }
-        i += 1;
-    }
-    v
+pub fn rest(packet: &[u8], k: usize) -> Vec<u8> {
+    packet[k..].to_vec()
 }
 
 pub fn v5_model(packet: &[u8]) -> Result<ParsedNetflow, NetflowParseError> {
@@ -105,14 +94,14 @@ pub fn ipfix_model(_s: &mut ipfix::IPFixParser, packet: &[u8]) -> Result<ParsedN
 }
 
 /// wire length of a header-only packet of a known version
-fn wire(v: u16) -> usize {
+pub fn wire(v: u16) -> usize {
     match v {
         5 | 7 => 24,
         9 => 20,
         _ => 16,
     }
 }
-fn known(v: u16) -> bool {
+pub fn known(v: u16) -> bool {
     v == 5 || v == 7 || v == 9 || v == 10
 }
 
@@ -120,7 +109,7 @@ fn known(v: u16) -> bool {
 /// < 2 bytes => Error; version not allowed => stop silently; allowed but unknown => Error;
 /// known and complete => packet, advance; known and short => Error.
 /// Returns (#packets, offsets, has_error, error_offset).
-fn model_walk(b: &[u8], n: usize, allowed: &[u16; 3]) -> (usize, [usize; 3], bool, usize) {
+pub fn model_walk(b: &[u8], n: usize, allowed: &[u16; 3]) -> (usize, [usize; 3], bool, usize) {
     let mut offs = [0usize; 3];
     let mut k = 0usize;
     let mut pos = 0usize;
@@ -147,7 +136,7 @@ fn model_walk(b: &[u8], n: usize, allowed: &[u16; 3]) -> (usize, [usize; 3], boo
     (k, offs, false, pos)
 }
 
-fn version_of(p: &NetflowPacket) -> u16 {
+pub fn version_of(p: &NetflowPacket) -> u16 {
     match p {
         NetflowPacket::V5(_) => 5,
         NetflowPacket::V7(_) => 7,
@@ -158,7 +147,7 @@ fn version_of(p: &NetflowPacket) -> u16 {
 }
 
 /// a per-version header word that must be carried through (detects reordering / mixing)
-fn word_of(p: &NetflowPacket) -> u32 {
+pub fn word_of(p: &NetflowPacket) -> u32 {
     match p {
         NetflowPacket::V5(x) => x.header.sys_up_time,
         NetflowPacket::V7(x) => x.header.sys_up_time,
@@ -168,9 +157,25 @@ fn word_of(p: &NetflowPacket) -> u32 {
     }
 }
 
-macro_rules! w_harness {
-    ($name:ident, $N:expr) => {
-        /// C02, C11 (chaining), C12, C14 (W part): result == reference decomposition.
+/// W shape harness, no stubs: the real decoders run on header-only packets whose version
+/// and count/length bytes are *written* (so dispatch folds per level); header words, the
+/// allowed set and the tail bytes are symbolic.  `$vers` lists the version of each packet
+/// (0 = none), `$tail` = number of extra bytes after the last listed packet, `$cut` =
+/// number of bytes removed from the end of the last listed packet (truncation).
+macro_rules! w_shape {
+    ($name:ident, $vers:expr, $tail:expr, $cut:expr) => {
+        #[kani::proof]
+        #[kani::stub(core::fmt::write, no_fmt)]
+        fn $name() {
+            w_shape_body!($vers, $tail, $cut);
+        }
+    };
+}
+/// Same shapes with the four per-version entry points replaced by the exact header-only
+/// models above: from the second packet on the input is a heap copy whose bytes CBMC does
+/// not constant-fold, so with the real decoders every level explores all four of them.
+macro_rules! w_shape_stubbed {
+    ($name:ident, $vers:expr, $tail:expr, $cut:expr) => {
         #[kani::proof]
         #[kani::stub(core::fmt::write, no_fmt)]
         #[kani::stub(netflow_parser::static_versions::v5::V5Parser::parse, v5_model)]
@@ -178,14 +183,47 @@ macro_rules! w_harness {
         #[kani::stub(netflow_parser::variable_versions::v9::V9Parser::parse, v9_model)]
         #[kani::stub(netflow_parser::variable_versions::ipfix::IPFixParser::parse, ipfix_model)]
         fn $name() {
-            const N: usize = $N;
-            let buf: [u8; N] = kani::any();
-            let n: usize = kani::any();
-            kani::assume(n <= N);
+            w_shape_body!($vers, $tail, $cut);
+        }
+    };
+}
+macro_rules! w_shape_body {
+    ($vers:expr, $tail:expr, $cut:expr) => {
+        {
+            const VERS: [u16; 3] = $vers;
+            const TAIL: usize = $tail;
+            const CUT: usize = $cut;
+            const fn wl(v: u16) -> usize {
+                match v {
+                    0 => 0,
+                    5 | 7 => 24,
+                    9 => 20,
+                    10 => 16,
+                    _ => 4, // unknown version: 4 arbitrary bytes
+                }
+            }
+            const N: usize = wl(VERS[0]) + wl(VERS[1]) + wl(VERS[2]) + TAIL - CUT;
+            let mut buf: [u8; N] = kani::any();
+            let mut pos = 0;
+            let mut k = 0;
+            while k < 3 {
+                let v = VERS[k];
+                if v != 0 && pos + 4 <= N {
+                    put16(&mut buf, pos, v);
+                    if v == 10 {
+                        put16(&mut buf, pos + 2, 16);
+                    } else if v == 5 || v == 7 || v == 9 {
+                        put16(&mut buf, pos + 2, 0);
+                    }
+                }
+                pos += wl(v);
+                k += 1;
+            }
             let allowed: [u16; 3] = kani::any();
             let mut p = NetflowParser::default();
             p.allowed_versions = allowed.into();
-            let r = p.parse_bytes(&buf[..n]);
+            let r = p.parse_bytes(&buf);
+            let n = N;
             let (k, offs, has_err, epos) = model_walk(&buf, n, &allowed);
             assert!(r.len() == k + has_err as usize);
             let mut i = 0;
@@ -226,18 +264,29 @@ macro_rules! w_harness {
             // header-only packets, disallowed and unknown versions never touch the caches
             assert!(p.v9_parser.templates.len() == 0 && p.v9_parser.options_templates.len() == 0);
             assert!(p.ipfix_parser.templates.len() == 0 && p.ipfix_parser.options_templates.len() == 0);
-            kani::cover!(k == 2 && !has_err && epos == n);
-            kani::cover!(k == 2 && has_err);
-            kani::cover!(k == 1 && !has_err && epos < n);
-            kani::cover!(k == 0 && has_err && n == 1);
-            kani::cover!(k == 1 && has_err && n - epos >= 2 && !known(be16(&buf, epos)));
+            kani::cover!(r.len() >= 1);
+            kani::cover!(r.len() == 0);
             core::mem::forget(r);
             core::mem::forget(p);
         }
     };
 }
-w_harness!(w_decompose_40, 40);
-w_harness!(w_decompose_50, 50);
+// real decoders, one packet + tail
+w_shape!(w_real_5_stray, [5, 0, 0], 1, 0);
+w_shape!(w_real_10, [10, 0, 0], 0, 0);
+w_shape!(w_real_9cut, [9, 0, 0], 0, 5);
+w_shape!(w_real_7_unknown, [7, 0x0101, 0], 0, 0);
+w_shape!(w_real_5_9, [5, 9, 0], 0, 0);
+w_shape!(w_real_10_7_stray, [10, 7, 0], 1, 0);
+// modelled decoders, chains
+w_shape_stubbed!(w_shape_5_9, [5, 9, 0], 0, 0);
+w_shape_stubbed!(w_shape_10_7_stray, [10, 7, 0], 1, 0);
+w_shape_stubbed!(w_shape_9_unknown, [9, 6, 0], 3, 0);
+w_shape_stubbed!(w_shape_7_5cut, [7, 5, 0], 0, 14);
+w_shape_stubbed!(w_shape_10_10_10, [10, 10, 10], 0, 0);
+w_shape_stubbed!(w_shape_5_10cut, [5, 10, 0], 0, 1);
+w_shape_stubbed!(w_shape_9_9cut, [9, 9, 0], 0, 17);
+w_shape_stubbed!(w_shape_unknown_first, [0xFFFF, 5, 0], 0, 0);
 
 /// C02: an empty buffer yields an empty list, whatever the allowed set.
 #[kani::proof]
